@@ -29,7 +29,7 @@ VALUES = {
     'pu_step': [('1', 6), ('2', 1), ('0', 1), ('abc', 1), ('8', 1), ('01', 1)],
     'pu_offset': [('0', 6), ('1', 1), ('7', 1), ('8', 1), ('abc', 1), ('00', 1)],
     'numa_sensitive': [('0', 3), ('1', 3), ('2', 3), ('3', 1), ('x', 1)],
-    'small_size': [('0x8000', 3), ('0x10000', 2), ('0x20000', 3), ('65536', 1), ('40000', 2), ('abc', 1), ('0xC000', 1)],
+    'small_size': [('0x8000', 3), ('0x10000', 2), ('0x20000', 3), ('65536', 1), ('0xA000', 2), ('40000', 1), ('abc', 1), ('0xC000', 1), ('49152', 1)],
     'plain': [('5', 3), ('123', 3), ('zzz', 1), ('0', 1)],
 }
 # (name in VALUES, ini key, env var, cli option or None)
@@ -102,7 +102,7 @@ def gen(rng, cid):
         env.append(('PIKA_IGNORE_PROCESS_MASK', rng.choice(['0', '1', 'x'])))
     if rng.below(14) == 0:
         groups.append([f'--pika:ini=pika.force_min_os_threads!={rng.choice(["0", "2", "5", "1"])}'])
-    if rng.below(20) == 0:
+    if rng.below(40) == 0:
         groups.append([f'--pika:high-priority-threads={rng.choice(["1", "2", "9"])}'])
     if rng.below(25) == 0:
         groups.append([rng.choice(['--pika:ini=pika.nokey=1', '--pika:ini=pika.nokey!=1', '--pika:ini=junk', '--pika:ignore',
@@ -293,8 +293,8 @@ def main():
     if mon:
         for k, c, r in mon:
             msg = r['verdict'].split('monitors FAIL:')[-1].strip()
-            sig = re.sub(r"'[^']*'|\d+", 'N', msg)[:120]
-            if sig in reported:
+            sig = re.sub(r"'[^']*'|=\S+|\d+", 'N', msg)[:120]
+            if sig in reported or len(violations) >= 5:
                 continue
             reported.add(sig)
             hit = [f for f in kf if f['signature'] and f['signature'] in sig]
